@@ -160,7 +160,7 @@ def run_check(args):
     tmpdir = tempfile.mkdtemp(prefix="simcheck_", dir=os.environ.get("TMPDIR", "/tmp"))
     results, errors = [], []
     try:
-        classes = HASH_CLASSES[tier] if prop in props.HASH_SENSITIVE or tier == "thorough" else [0]
+        classes = HASH_CLASSES[tier] if tier == "thorough" else ([0, 1] if prop in props.HASH_SENSITIVE else [0])
         procs = []
         per = n_runs // len(classes)
         start = 0
